@@ -17,7 +17,7 @@ RULE = (
     "Hypothesis draws a result value from the documented domain (None, bool, int incl. > 2^64, float incl. NaN/inf/-0.0, str incl. non-ASCII/empty/large, "
     "bytes, date, datetime naive/aware, pd.Timestamp, lists and str-keyed dicts nesting these to depth 3, 1-d numpy arrays of the 7 supported dtypes incl. empty, "
     "pd.Index/Series/DataFrame incl. empty and indexed, InMemoryPartition/OnDiskPartition of such values) or an exception from a catalogue (builtin, importable custom "
-    "with message constructor, two required args, no-arg constructor, function-local class, NonMemoizedException subclass) x backend {filesystem, filesystem+cache 2 KiB..16 MiB, memory} "
+    "with message constructor, two required args, no-arg constructor, function-local class, classes nested one and two levels inside another class with a same-named top-level decoy, NonMemoizedException subclass) x backend {filesystem, filesystem+cache 256 B..16 MiB (so that weak-referenceable results oversize for the cache occur), memory} "
     "x modifier {plain, ignore_result, force_local}. A table-driven memento function returns/raises it. Oracle: call 1 runs the body exactly once and returns the object; "
     "calls 2-3 and a call after reopening the store run nothing and return a typed-equal value (same ResultType for partitions); memento().result_type == ResultType.from_object(value read back); "
     "the object returned by call 1 is still fully usable; exceptions replay as the same class when Class(message) can be built else MementoException, original message contained; "
@@ -247,7 +247,9 @@ def _check_result(out, case, spec, reference, kind, res, which, first):
         if name == "TwoArgErr":
             msg = spec["msg"] + "/second"
         first_call = which == 1
-        if first_call or name == "NotMemoized":
+        if name in tfuncs.REBUILDABLE and name not in ("ValueError", "KeyError", "ZeroDivisionError"):
+            ok_class = type(res) is tfuncs.REBUILDABLE[name]
+        elif first_call or name == "NotMemoized":
             ok_class = type(res).__name__ == name
         elif name in tfuncs.REBUILDABLE:
             ok_class = type(res) is tfuncs.REBUILDABLE[name]
@@ -304,15 +306,16 @@ def strategy():
     S = values.strategies()
     msg = st.text(alphabet="abcdefghij XYZ0123456789.,:;-_()é", min_size=0, max_size=20)
     exc = st.builds(lambda k, mm: {"exc": k, "msg": mm},
-                    st.sampled_from(["ValueError", "KeyError", "ZeroDivisionError", "CustomErr", "TwoArgErr", "NoArgErr", "LocalErr", "NotMemoized"]), msg)
+                    st.sampled_from(["ValueError", "KeyError", "ZeroDivisionError", "CustomErr", "TwoArgErr", "NoArgErr", "LocalErr", "NotMemoized", "NestedErr", "DeepErr"]), msg)
     big = st.sampled_from([{"t": "str", "n": 3000, "c": "b"}, {"t": "bytes", "n": 5000, "c": "ab"},
-                           {"t": "nd", "dtype": "int64", "v": list(range(60))}])
+                           {"t": "nd", "dtype": "int64", "v": list(range(60))}, {"t": "nd", "dtype": "float64", "v": [float(i) for i in range(700)]},
+                           {"t": "nd", "dtype": "int8", "v": [i % 100 for i in range(2500)]}])
     nested = S.containers(st.one_of(S.scalar, S.nd(), S.series(), S.frame(), S.index, S.result_value))
     result = st.one_of(S.scalar, S.nd(), S.nd(), S.series(), S.frame(), S.frame(), S.index, nested, nested,
                        S.result_value, S.partition, S.partition, exc, exc, big)
     return st.builds(
         lambda r, b, kb, mod: {"result": r, "backend": b, "budget_kb": kb, "modifier": mod},
-        result, st.sampled_from(["fs", "fsc", "fsc", "mem"]), st.sampled_from([2, 2, 64, 16384]),
+        result, st.sampled_from(["fs", "fsc", "fsc", "mem"]), st.sampled_from([0.25, 2, 2, 64, 16384]),
         st.sampled_from(["plain", "plain", "ignore_result", "force_local"]))
 
 
